@@ -185,5 +185,53 @@ pub fn run(cases_path: &str, out_path: &str, tier: &str, seed: u64) {
         let ok = !r.is_panic() && (!changed || r.is_ok() == want_ok);
         sink.put(rec("c16.header_matrix", json!({"variant": name}), ok, "cleartext_header", json!({"outcome": r.class(), "detail": r.detail(), "applied": changed})));
     }
+    // ---- long texts: signed forms whose length sits on the 512-octet blocks of the streaming normaliser, with every line-ending tail
+    {
+        use pgp::composed::CleartextSignedMessage;
+        let tails: [&str; 9] = ["", "x", "\n", " \n", "\r ", "\r \t", "\r\n", "\r", " "];
+        let mut jobs: Vec<(usize, usize, bool)> = Vec::new();
+        for b in [512usize, 1024, 1536] { for d in 0..5usize { for ti in 0..tails.len() { for v6 in [false, true] { jobs.push((b + d - 2, ti, v6)); } } } }
+        jobs.par_iter().for_each(|&(target, ti, v6)| {
+            let tail = tails[ti];
+            // signed-form length (before LF -> CRLF) = target: filler lines of 40, then the tail's visible part
+            let visible_tail = tail.trim_end_matches([' ', '\t']);
+            if target < visible_tail.len() + 3 { return; }
+            let mut text = String::new();
+            let body_len = target - visible_tail.len();
+            while text.len() < body_len { if text.len() % 41 == 40 { text.push('\n') } else { text.push((b'a' + (text.len() % 23) as u8) as char) } }
+            text.truncate(body_len);
+            text.push_str(tail);
+            let (k, p) = if v6 { (&k6, &p6) } else { (&k4, &p4) };
+            nontrivial.fetch_add(1, std::sync::atomic::Ordering::Relaxed);
+            let r = guard(|| -> Result<(), String> {
+                let e = |x: pgp::errors::Error| x.to_string();
+                let m = CleartextSignedMessage::sign(rng(seed), &text, &k.primary_key, &Password::empty()).map_err(e)?;
+                m.verify(&p.primary_key).map_err(|x| format!("freshly signed text does not verify: {x}"))?;
+                let parts: Vec<&str> = text.split('\n').collect();
+                let form: String = parts.iter().enumerate().map(|(i, l)| (if i + 1 < parts.len() { l.strip_suffix('\r').unwrap_or(l) } else { l }).trim_end_matches([' ', '\t'])).collect::<Vec<_>>().join("\r\n");
+                if m.signed_text() != form { return Err("signed_text() is not the RFC 9580 7.2 signed form".into()); }
+                let arm = m.to_armored_string(Default::default()).map_err(e)?;
+                let (back, _) = CleartextSignedMessage::from_string(&arm).map_err(|x| format!("own output does not parse: {x}"))?;
+                back.verify(&p.primary_key).map_err(|x| format!("does not verify after armoring: {x}"))?;
+                // a text that differs in a signed octet must not verify under the same signature block
+                let at = arm.find("\n\n").ok_or("no body")? + 2;
+                let mut tampered = arm.clone().into_bytes();
+                tampered[at] = if tampered[at] == b'b' { b'c' } else { b'b' };
+                if let Ok((t, _)) = CleartextSignedMessage::from_string(&String::from_utf8_lossy(&tampered)) { if t.verify(&p.primary_key).is_ok() { return Err("a changed first octet still verifies".into()); } }
+                // dropping the final CR of the signed form must not verify either
+                if form.ends_with('\r') {
+                    let shorter = &text[..text.rfind('\r').unwrap()];
+                    let m2 = CleartextSignedMessage::new_many(shorter, |_| Ok(m.signatures().to_vec())).map_err(e)?;
+                    if m2.verify(&p.primary_key).is_ok() { return Err("the text without its final CR verifies under the same signature".into()); }
+                }
+                Ok(())
+            });
+            // (a signed form ending in a lone CR cannot survive the armored framework: the open finding)
+            let form_ends_cr = text.split('\n').last().map(|l| l.trim_end_matches([' ', '\t']).ends_with('\r')).unwrap_or(false) && !text.ends_with('\n');
+            let fkey = if !r.is_ok() && text.ends_with('\r') && r.detail().contains("after armoring") { "cleartext_final_cr" } else { "cleartext" };
+            let _ = form_ends_cr;
+            sink.put(rec("c16.long_text", json!({"signed_form_octets": target, "tail": tail.escape_debug().to_string(), "v6": v6}), r.is_ok(), fkey, json!({"outcome": r.class(), "detail": r.detail()})));
+        });
+    }
     sink.finish(json!({"cases": cases.len(), "nontrivial": nontrivial.load(std::sync::atomic::Ordering::Relaxed)}));
 }
